@@ -18,7 +18,7 @@ CHECKS = {
     },
     "C13": {
         "text": ("Lean theorems (entry level, unbounded): without options the metadata a copied entry ends up with is the source's, with chown/utime/mode the "
-                 "requested owner/time/permission bits, symlinks excepted (no_options_preserves, chown_option, utime_option, mode_option_*). Correspondence: "
+                 "requested owner/time/permission bits, symlinks excepted (no_options_preserves, chown_option, utime_option, mode_option_*); under every option combination name, link target, size and device numbers are the source's, an absent option leaves its field as the source has it, and every source xattr is carried while a destination xattr survives exactly when the source has none of that name (options_keep_identity_fields, absent_option_preserves, xattrs_source_wins). Correspondence: "
                  "copy.Copy in a chroot'ed child on materialised trees (all types, hard-link groups, suid/sgid/sticky, xattrs incl. file capabilities, ns "
                  "mtimes) into an empty root: whole tree / sub-directory / single file / single symlink / follow-links x {chown, octal mode, utime} vs the "
                  "executable tree-level reference (landing rule, children-then-metadata, created parents, notifier calls)."),
@@ -165,7 +165,7 @@ CHECKS = {
     "C07": {
         "text": ("Lean theorems (unbounded): in every reachable state of the receiver LTS requests are needed ids, announced before requested, at most once; "
                  "terminators only for requested ids; FIN only after the end marker and all terminators (receiver_protocol); stored bytes = concatenation of the "
-                 "payloads received, any chunking/interleaving (stored_is_concat). The LTS is the acceptor of real Receive event logs against an independent "
+                 "payloads received, any chunking/interleaving (stored_is_concat); a terminator is accepted at most once per id (terminator_once_per_id); nothing after FIN in an accepted log is a request or a second FIN (fin_is_the_last_send). The LTS is the acceptor of real Receive event logs against an independent "
                  "reference sender; needed ids come from the Lean change computation; the destination (also at the moment FIN is seen) is compared with what was sent."),
         "note": ("Trusted: Lean kernel + standard axioms; bytes compared by content hash in the harness; schedules = those produced by seeded capacities, "
                  "chunkings and interleavings."),
